@@ -695,8 +695,8 @@ def build_kinds():
     add(Kind("column", TB + [["a", "columns"], ["idx", 0]], S0, [Prop("_Column", "width", dim())], corpus=True))
 
     # --- charts -----------------------------------------------------------------------------------------
-    def chart_kind(name, shape, more, props, corpus=False, observers=(), pairs=True):
-        add(Kind(name, chart(shape, *more), chart(shape), props, corpus=corpus, observers=observers, pairs=pairs))
+    def chart_kind(name, shape, more, props, corpus=False, observers=(), pairs=True, deck="bench"):
+        add(Kind(name, chart(shape, *more), chart(shape), props, corpus=corpus, observers=observers, pairs=pairs, deck=deck))
 
     chart_kind("chart", "CH-bar", (), [
         Prop("Chart", "chart_style", int_range(1, 48, (10, 25), none=True, documented=True), none_reading=None, none_removes=True),
@@ -741,6 +741,44 @@ def build_kinds():
     chart_kind("xy_marker", "CH-xy", P0 + (A("series"), I(0), A("marker")), [
         Prop("Marker", "size", int_range(2, 72, (9, 40), none=True, documented=True), none_reading=None, none_removes=True),
         Prop("Marker", "style", enum_vals(ENUM_CHART + ":XL_MARKER_STYLE", quick=4))])
+    # --- several points of one series (histories across them: CROSS_OBJECT_GROUPS_QUICK) -------------
+    def point_label_props():
+        return [Prop("DataLabel", "position", enum_vals(ENUM_CHART + ":XL_LABEL_POSITION", none=True, quick=4), none_reading=None),
+                Prop("DataLabel", "has_text_frame", two_bool())]
+
+    def marker_props():
+        return [Prop("Marker", "size", int_range(2, 72, (9, 40), none=True, documented=True), none_reading=None, none_removes=True),
+                Prop("Marker", "style", enum_vals(ENUM_CHART + ":XL_MARKER_STYLE", quick=4))]
+
+    BAR_S0 = P0 + (A("series"), I(0))
+    LINE_S0 = P0 + (A("series"), I(0))
+    for i in (0, 2):
+        chart_kind("point_data_label_%d" % i, "CH-bar", BAR_S0 + (A("points"), I(i), A("data_label")), point_label_props(), pairs=False)
+        chart_kind("point_marker_%d" % i, "CH-line", LINE_S0 + (A("points"), I(i), A("marker")), marker_props(), pairs=False)
+        chart_kind("point_line_%d" % i, "CH-line", LINE_S0 + (A("points"), I(i), A("format"), A("line")), line_props(), pairs=False)
+    chart_kind("point_label_font_0", "CH-bar", BAR_S0 + (A("points"), I(0), A("data_label"), A("font")), font_props(), pairs=False)
+    chart_kind("point_label_font_2", "CH-bar", BAR_S0 + (A("points"), I(2), A("data_label"), A("font")), font_props(), pairs=False)
+
+    # --- 'as PowerPoint writes it': objects whose stored form python-pptx never produces itself ----------
+    PP = "bench-pp"
+    chart_kind("legend_edge_layout", "CH-bar", (A("legend"),), [
+        Prop("Legend", "position", enum_vals(LP, exclude=("CUSTOM",))),
+        Prop("Legend", "include_in_layout", [Val("True", True, pair=True), Val("False", False, pair=True),
+                                             Val("None", None, "none", expect=True, pair=True)],
+             none_reading=True, none_removes=True),
+        Prop("Legend", "horz_offset", fraction((-1.0, 1.0)), quantum=0)], deck=PP)
+    chart_kind("point_data_label_before_existing", "CH-bar", BAR_S0 + (A("points"), I(0), A("data_label")),
+               point_label_props(), deck=PP)
+    chart_kind("point_label_font_before_existing", "CH-bar", BAR_S0 + (A("points"), I(0), A("data_label"), A("font")),
+               font_props(), deck=PP, pairs=False)
+    chart_kind("point_marker_before_existing", "CH-line", LINE_S0 + (A("points"), I(0), A("marker")), marker_props(), deck=PP)
+    chart_kind("point_line_before_existing", "CH-line", LINE_S0 + (A("points"), I(0), A("format"), A("line")), line_props(),
+               deck=PP, pairs=False)
+    add(Kind("color_theme_lummod", sh("AS-theme", A("fill"), A("fore_color")), S0, color_props(), observers=("type",), deck=PP))
+    add(Kind("color_system", sh("AS-nocolor", A("fill"), A("fore_color")), S0, color_props(), observers=("type",), deck=PP))
+    add(Kind("text_frame_normautofit", sh("AS", A("text_frame")), S0, text_frame_props(), deck=PP, pairs=False))
+    add(Kind("paragraph_spcPct_string", sh("AS", A("text_frame"), A("paragraphs"), I(0)), S0, paragraph_props(), deck=PP, pairs=False))
+    add(Kind("placeholder_with_xfrm", S0 + [["a", "shapes"], ["idx", 1]], S0, placeholder_props(), deck=PP))
     return kinds
 
 
@@ -764,6 +802,11 @@ def kind(name):
 # Histories across objects (thorough tier): objects that the documentation treats as independent of
 # each other although they live in one shape / one text body.
 CROSS_OBJECT_GROUPS = [("autoshape", "fill", "line"), ("text_frame", "paragraph", "run_font")]
+# Both tiers: different points of ONE series (the per-point elements c:dLbl / c:dPt are kept in idx order, so the
+# order of customisation matters); both orders are enumerated.
+CROSS_OBJECT_GROUPS_QUICK = [("point_data_label_0", "point_data_label", "point_data_label_2"),
+                             ("point_marker_0", "point_marker_2"), ("point_line_0", "point_line_2"),
+                             ("point_label_font_0", "point_label_font_2")]
 TRIPLE_KINDS = ("text_frame", "paragraph", "run_font")
 
 # ---------------------------------------------------------------------------------------------------
@@ -965,8 +1008,106 @@ def _strip_sldSz(blob):
     return write_zip(m)
 
 
+_A = "http://schemas.openxmlformats.org/drawingml/2006/main"
+_P = "http://schemas.openxmlformats.org/presentationml/2006/main"
+_C = "http://schemas.openxmlformats.org/drawingml/2006/chart"
+_R = "http://schemas.openxmlformats.org/officeDocument/2006/relationships"
+_NS = {"a": _A, "p": _P, "c": _C, "r": _R}
+
+
+def _powerpoint_forms(blob):
+    """Harness-side (bare zip + lxml): the bench deck with a few objects rewritten into the *alternative
+    stored forms* PowerPoint (or another producer) writes and python-pptx itself never does:
+
+      CH-bar legend       full c:legend with a manual layout in EDGE mode (a legend the user dragged)
+      CH-bar series 1     a PowerPoint-written c:dLbl for point idx 2 (no label for points 0 and 1)
+      CH-line series 1    a PowerPoint-written c:dPt for point idx 2
+      AS-theme fill       a:schemeClr with a:lumMod (theme colour, 25 % darker)
+      AS-nocolor fill     a:sysClr (system colour)
+      AS text body        a:normAutofit with fontScale/lnSpcReduction; first paragraph a:spcPct val="90%"
+                          (percent-string form of ST_TextSpacingPercentOrPercentString)
+      body placeholder    a complete a:xfrm (a placeholder the user moved)
+    """
+    from lxml import etree
+
+    from mc.drivers.fixtures import write_zip, zip_members
+    m = zip_members(blob)
+    sname = "ppt/slides/slide1.xml"
+    slide = etree.fromstring(m[sname])
+    rels = etree.fromstring(m["ppt/slides/_rels/slide1.xml.rels"])
+
+    def frag(xml):
+        return etree.fromstring('<x xmlns:a="%s" xmlns:c="%s" xmlns:p="%s">%s</x>' % (_A, _C, _P, xml))[0]
+
+    def one(root, xp):
+        r = root.xpath(xp, namespaces=_NS)
+        if len(r) != 1:
+            raise RuntimeError("bench-pp: %d matches for %s" % (len(r), xp))
+        return r[0]
+
+    def chart_member(name):
+        rid = one(slide, "//p:graphicFrame[p:nvGraphicFramePr/p:cNvPr/@name='%s']//c:chart/@r:id" % name)
+        tgt = [r.get("Target") for r in rels if r.get("Id") == rid][0]
+        return "ppt/" + tgt.replace("../", "")
+
+    # -- charts ---------------------------------------------------------------------------------
+    bar = chart_member("CH-bar")
+    root = etree.fromstring(m[bar])
+    legend = one(root, "//c:legend")
+    new_legend = frag('<c:legend><c:legendPos val="r"/><c:layout><c:manualLayout><c:xMode val="edge"/><c:yMode val="edge"/>'
+                      '<c:x val="0.7"/><c:y val="0.1"/><c:w val="0.25"/><c:h val="0.3"/></c:manualLayout></c:layout>'
+                      '<c:overlay val="0"/></c:legend>')
+    legend.getparent().replace(legend, new_legend)
+    ser = one(root, "(//c:barChart/c:ser)[1]")
+    dl = frag('<c:dLbls><c:dLbl><c:idx val="2"/><c:dLblPos val="inEnd"/><c:showLegendKey val="0"/><c:showVal val="1"/>'
+              '<c:showCatName val="0"/><c:showSerName val="0"/><c:showPercent val="0"/><c:showBubbleSize val="0"/></c:dLbl>'
+              '<c:showLegendKey val="0"/><c:showVal val="0"/><c:showCatName val="0"/><c:showSerName val="0"/>'
+              '<c:showPercent val="0"/><c:showBubbleSize val="0"/></c:dLbls>')
+    if ser.xpath("c:dLbls|c:dPt", namespaces=_NS):
+        raise RuntimeError("bench-pp: bar series already has point formatting")
+    one(ser, "c:cat").addprevious(dl)
+    m[bar] = etree.tostring(root, xml_declaration=True, encoding="UTF-8", standalone=True)
+
+    line = chart_member("CH-line")
+    root = etree.fromstring(m[line])
+    ser = one(root, "(//c:lineChart/c:ser)[1]")
+    if ser.xpath("c:dPt", namespaces=_NS):
+        raise RuntimeError("bench-pp: line series already has c:dPt")
+    dpt = frag('<c:dPt><c:idx val="2"/><c:marker><c:symbol val="diamond"/><c:size val="11"/></c:marker><c:bubble3D val="0"/>'
+               '<c:spPr><a:ln w="25400"><a:prstDash val="dash"/></a:ln></c:spPr></c:dPt>')
+    anchor = ser.xpath("c:dLbls|c:trendline|c:errBars|c:cat", namespaces=_NS)[0]
+    anchor.addprevious(dpt)
+    m[line] = etree.tostring(root, xml_declaration=True, encoding="UTF-8", standalone=True)
+
+    # -- shapes -----------------------------------------------------------------------------------
+    def sp(name):
+        return one(slide, "//p:sp[p:nvSpPr/p:cNvPr/@name='%s']" % name)
+
+    fill = one(sp("AS-theme"), "p:spPr/a:solidFill")
+    fill.getparent().replace(fill, frag('<a:solidFill><a:schemeClr val="accent2"><a:lumMod val="75000"/></a:schemeClr></a:solidFill>'))
+    fill = one(sp("AS-nocolor"), "p:spPr/a:solidFill")
+    fill.getparent().replace(fill, frag('<a:solidFill><a:sysClr val="windowText" lastClr="000000"/></a:solidFill>'))
+    body = one(sp("AS"), "p:txBody/a:bodyPr")
+    for ch in list(body):
+        body.remove(ch)
+    body.append(frag('<a:normAutofit fontScale="62500" lnSpcReduction="20000"/>'))
+    para = one(sp("AS"), "p:txBody/a:p[1]")
+    ppr = para.find("{%s}pPr" % _A)
+    if ppr is None:
+        ppr = etree.SubElement(para, "{%s}pPr" % _A)
+        para.insert(0, ppr)
+    ppr.insert(0, frag('<a:lnSpc><a:spcPct val="90%"/></a:lnSpc>'))
+    ph = one(slide, "(//p:sp[p:nvSpPr/p:nvPr/p:ph])[2]")
+    sppr = one(ph, "p:spPr")
+    if sppr.find("{%s}xfrm" % _A) is not None:
+        raise RuntimeError("bench-pp: body placeholder already has a:xfrm")
+    sppr.insert(0, frag('<a:xfrm><a:off x="685800" y="1905000"/><a:ext cx="7772400" cy="3886200"/></a:xfrm>'))
+    m[sname] = etree.tostring(slide, xml_declaration=True, encoding="UTF-8", standalone=True)
+    return write_zip(m)
+
+
 def bench_bytes(variant="bench"):
-    """Deterministic workbench deck. variant: 'bench' | 'bench-nosldsz'."""
+    """Deterministic workbench deck. variant: 'bench' | 'bench-nosldsz' | 'bench-pp'."""
     if "bench" not in _BENCH:
         _BENCH["bench"] = _build_bench()
     if variant == "bench":
@@ -974,6 +1115,10 @@ def bench_bytes(variant="bench"):
     if variant == "bench-nosldsz":
         if variant not in _BENCH:
             _BENCH[variant] = _strip_sldSz(_BENCH["bench"])
+        return _BENCH[variant]
+    if variant == "bench-pp":
+        if variant not in _BENCH:
+            _BENCH[variant] = _powerpoint_forms(_BENCH["bench"])
         return _BENCH[variant]
     raise KeyError(variant)
 
